@@ -655,3 +655,47 @@ def gen_post(rng, minimal=False):
                 steps.append(estep(cur, "%s cached again, writes all outputs again" % l))
                 steps.append(bstep(minimal))
     return {"ws": ws, "algo": rng.choice(["xxh3", "sha256"]), "steps": steps, "tags": ["post"] + (["minimal"] if minimal else [])}
+
+
+# ------------------------------------------------------------------------------------------------
+# replay of the round-c oracles
+# ------------------------------------------------------------------------------------------------
+
+def interrupted_taints(hist, real):
+    """-> [(build, target)]: tainted targets executed in an interrupted build, with a dependant started afterwards, whose marker is
+    still there after that build"""
+    out = []
+    for b in H.walk(hist, real):
+        if b["step"].get("interrupt"):
+            pex = set(b["obs"]["executed"])
+            for l in sorted(set(b["obs"]["pre_tainted"]) & pex):
+                if any(l in H.rdeps(b["ws"], y) for y in pex if y in b["ws"]["targets"]) and l in b["obs"]["tainted"]:
+                    out.append((b["n"], l))
+    return out
+
+
+def replay_oracles(ctx, rep):
+    """re-run the history of a replay file against the real binary and evaluate the round-c oracles; 1 = reproduced"""
+    h = rep.get("history")
+    grog = ctx.grog_binary()
+    if not h or not grog:
+        return 0
+    real = H.run_real(grog, h, ctx.scratch("replay2"))
+    for line in H.describe(h):
+        print("  ", line)
+    rc = 0
+    for b in H.walk(h, real):
+        o = b["obs"]
+        print("build %d: ok=%s executed=%s tainted-after=%s" % (b["n"], o["ok"], sorted(o["executed"]), o["tainted"]))
+        if o["ok"] and b["step"]["k"] == "build":
+            for l in sorted(failing_prechecks(b["ws"], o["pre"]) & set(H.selected(b["ws"], b["step"]["patterns"]))):
+                if l not in o["executed"]:
+                    print("  ORACLE: the output check of %s failed before build %d but the target was not executed" % (l, b["n"]))
+                    rc = 1
+    for f in unbuilt_state_hits(h, real):
+        print("  ORACLE: build %d did not execute %s although %s" % (f["build"], f["target"], f["why"]))
+        rc = 1
+    for n, l in interrupted_taints(h, real):
+        print("  ORACLE: %s ran successfully in the interrupted build %d (a dependant was started) but is still tainted" % (l, n))
+        rc = 1
+    return rc
